@@ -220,6 +220,36 @@ def run_c04(rep, tier, seed):
         rep.cov["traces_validated_against_impl"] += 1
         if si < 2:
             rep.sample({"schedule": name, "script": lines, "answers": ans})
+    # 1a. many merge passes whose output rolls over after every entry: every pair of consecutive output ids, every shard of the
+    # index and of the per-file counters is gone through hundreds of times (a lock taken twice on some pair of ids, or an
+    # entry lost on some shard, shows up as a hang or a wrong read)
+    lines = ["cfg mfs=0 pool=2 frag=0/1 dead=0 small=1099511627776", "dir marathon", "open"]
+    nkeys, rounds = (24, 12) if tier == "quick" else (32, 40)
+    for i in range(nkeys):
+        lines.append(f"put 6d{i:02x} {0x41 + i % 26:02x}*12")
+    checks_at = {}
+    for r in range(rounds):
+        k = r % nkeys
+        lines.append(f"put 6d{k:02x} {0x61 + r % 26:02x}*12")
+        lines.append("merge")
+        checks_at[len(lines) - 1] = "ok"
+        lines.append(f"get 6d{k:02x}")
+        checks_at[len(lines) - 1] = f"{0x61 + r % 26:02x}" * 12
+    lines.append("idle")
+    checks_at[len(lines) - 1] = "idle 2"
+    shutil.rmtree(root, ignore_errors=True)
+    try:
+        ans = run_harness(["store", "--root", root, "--hang-ms", "20000"], lines, preload=False, timeout=300)
+    except Died as d:
+        ans = d.answered + [f"<process died / hung: {d.why}>"]
+    rep.cov["evaluations"] += len(lines)
+    rep.count("merge_marathon_passes", rounds)
+    for li, want in sorted(checks_at.items()):
+        a = ans[li] if li < len(ans) else (ans[-1] if ans and ans[-1].startswith("<") else "no answer")
+        if not (a == want or (want == "ok" and a.startswith("ok"))):
+            viol("oracle", f"merge pass {li}: `{lines[li]}` answered {a[:80]!r} in a run of {rounds} passes over {nkeys} keys with one output file per entry",
+                 dict(script=lines, answers=ans, failing_line=li, expected=want, observed=a[:200]))
+            break
     # 1b. the LTS of the theorems against the real store, schedule by schedule (tools/p_lts.py)
     import p_lts
     p_lts.run_lts_tie(rep, tier, seed, viol)
@@ -277,7 +307,7 @@ def run_c04(rep, tier, seed):
         if ri == 0:
             rep.sample({"stress": lines, "history_head": h[:8]})
     shutil.rmtree(root, ignore_errors=True)
-    rep.cov["rule"] = ("(1) %d hand-written forced schedules using the crate's schedule points and a pause before a chosen write(2) (the two windows named in the property, merge/reader and writer/reader windows); "
+    rep.cov["rule"] = ("(0) a run of merge passes whose output rolls over after every entry (hundreds of consecutive output ids); (1) %d hand-written forced schedules using the crate's schedule points and a pause before a chosen write(2) (the two windows named in the property, merge/reader and writer/reader windows); "
                        "(2) free-running stress: 1-3 writers (put with unique values of 8..48 bytes or 8191/8192/9000/20000 bytes, del; every third run: one hot key, one writer that only overwrites for at least 150 ms / 1500 times, 4 readers reading until the writer is done (a get is recorded when its result changes and every 100 us), a preemption injector that interrupts the writer thread every ~300 us and makes it sleep >= 20 us wherever it is), 1-4 readers, one merging thread, max_file_size in {0,60,300,9000,30000}, pool 1/2/4, cache 0/1/256; "
                        "the timestamped history is checked per key for linearizability (exact memoised search), values for tearing, results for panics/errors, the run for hangs, the pool for leaked readers; "
                        "(3) correspondence with the LTS the theorems are about (`CStore.step`): model-guided schedules over 3 file sizes x 2 pool sizes x 6 initial stores x {get, put (3 bytes / 9000 bytes = two write(2) calls), del, merge} parked at each of its schedule points "
@@ -307,21 +337,33 @@ def run_c17(rep, tier, seed):
             ("worker about to merge (between the trigger check and the merge call)", "cfg mfs=1000000 policy=always interval=40 jitter=0/1 tfrag=0/1 tdead=0 frag=0/1 dead=0 small=1099511627776", "park-merge", 3000),
             ("worker about to merge, check interval 2.5 s (the rejected merge must not cost another interval)", "cfg mfs=1000000 policy=always interval=2500 jitter=0/1 tfrag=0/1 tdead=0 frag=0/1 dead=0 small=1099511627776", "park-merge", 900),
             ("worker syncing every 20 ms", "cfg mfs=1000000 sync=20 policy=never", [], 3000),
+            ("a client's set is in flight, holding the writer lock, when the owner is dropped", f"cfg mfs=1000000 policy=always interval={far} jitter=3/10", "park-put", 3000),
+            ("the worker's merge pass is under way, holding the writer lock, when the owner is dropped", "cfg mfs=1000000 policy=always interval=40 jitter=0/1 tfrag=0/1 tdead=0 frag=0/1 dead=0 small=1099511627776", "park-in-merge", 3000),
             ("worker merging every 30 ms and syncing every 25 ms", "cfg mfs=60 sync=25 policy=always interval=30 jitter=1/1 tfrag=0/1 tdead=0 frag=0/1 dead=0 small=1099511627776", [], 3000),
         ]
     for si, (name, cfg, special, deadline) in enumerate(scenarios):
         lines = [cfg, f"dir s{si}", "trace on", "keys 61 62 63"]
         if special == "park-merge":
             lines += [f"t.park {BG} bg.before_merge 1"]
+        if special == "park-in-merge":
+            lines += ["t.park * merge.copied 1"]
         lines += ["open", "put 61 3131", "put 61 3232", "put 62 3333", "del 62"]
         if special == "park-merge":
             lines += [f"t.wait {BG} 8000"]
+        elif special == "park-put":
+            lines += ["t.park W put.before_publish 1", "t.spawn W put 63 3939", "t.wait W 5000"]
+        elif special == "park-in-merge":
+            lines += ["t.wait * 8000"]
         else:
             lines += ["sleep 60"]
         i_drop = len(lines)
         lines += ["drop", "whocalls"]
         if special == "park-merge":
             lines += [f"t.release {BG}"]
+        elif special == "park-put":
+            lines += ["t.release W", "t.join W 5000"]
+        elif special == "park-in-merge":
+            lines += ["t.release *", "sleep 300"]
         i_ops = len(lines)
         lines += ["put 61 3434", "get 61", "get 62", "get 63", "del 61", "merge", "sync"]
         i_wait = len(lines)
@@ -529,6 +571,30 @@ def run_c18(rep, tier, seed):
                                          script=script, answers=ans, failing_line=i + 2, expected=f"a merge within {bound} ms", observed=ans[i + 2]))
         elif ans[i + 4] != "34343434343434343434":
             rep.violation("oracle", dict(what="wrong value after a merge with a busy writer", script=script, answers=ans, failing_line=i + 4, expected="34343434343434343434", observed=ans[i + 4]))
+    # a background pass that fails (a stray file sits where its first output would go) must not be the last one: the next
+    # rounds use ids above the stray file and must merge
+    for interval in ([200] if tier == "quick" else [100, 200, 400]):
+        bound = 3 * interval + SLACK
+        script = [f"cfg mfs=1000000 interval={interval} jitter=0/1 frag=0/1 dead=0 small=1099511627776 policy=always tfrag=1/2 tdead=1099511627776",
+                  f"dir fb{interval}", "open", "mkfile d1", "put 6b 31*10", "put 6b 32*10", "put 6b 33*10", "put 6b 34*10", "canmerge",
+                  f"waitfor hint {bound}", "get 6b", "close"]
+        shutil.rmtree(root, ignore_errors=True)
+        try:
+            ans = run_harness(["store", "--root", root, "--hang-ms", "30000"], script, preload=False, timeout=120)
+        except Died as d:
+            rep.violation("oracle", dict(what=f"harness died / hung after a failed background pass ({d.why})", script=script, answers=d.answered))
+            continue
+        rep.cov["evaluations"] += len(script)
+        rep.count("failed_background_pass_cases")
+        rep.nontrivial(["c18fb", interval])
+        i = script.index("canmerge")
+        if ans[3] != "ok" or ans[i] != "true":
+            rep.violation("oracle", dict(what="set-up of the failed-pass case did not work", script=script, answers=ans, failing_line=i, expected="ok / true", observed=f"{ans[3]} / {ans[i]}"))
+        elif not ans[i + 1].startswith("seen"):
+            rep.violation("oracle", dict(what=f"policy=always, trigger exceeded: the first background pass fails (a stray file has the id of its first output); no later round merged within {bound} ms",
+                                         script=script, answers=ans, failing_line=i + 1, expected=f"a merge within {bound} ms", observed=ans[i + 1]))
+        elif ans[i + 2] != "34343434343434343434":
+            rep.violation("oracle", dict(what="wrong value after the merge that followed a failed background pass", script=script, answers=ans, failing_line=i + 2, expected="34343434343434343434", observed=ans[i + 2]))
     # interval sync: the active file is fsynced at least once per interval while the store is open
     for interval in ([50] if tier == "quick" else [30, 50, 120]):
         script = [f"cfg mfs=1000000 sync={interval} policy=never", "dir sy", "trace on", "open", "put 61 31"] + [f"waitfor fsync {interval + SLACK}"] * 5 + ["close"]
